@@ -4,9 +4,12 @@
 set -u
 d=$(realpath "$1"); shift
 export GOFLAGS=-mod=mod GOPROXY=off GOSUMDB=off GOTOOLCHAIN=local
+root=$(cd "$(dirname "$0")/.." && pwd)   # the /verif clone this script lives in (sub-agents run it from their own clones)
 wt=/tmp/seed/apply-$$
+mkdir -p /tmp/seed
 git -C /repo worktree add -q --detach $wt HEAD || exit 2
-trap 'git -C /repo worktree remove --force $wt; rm -rf /verif/.bin/alt-* /verif/.bin/ctyharness-*' EXIT
+h=$(printf %s "$wt" | sha256sum | cut -c1-8)
+trap 'git -C /repo worktree remove --force $wt; rm -f $root/.bin/alt-$h.* $root/.bin/ctyharness-$h' EXIT
 git -C $wt apply "$d/patch.diff" || { echo "PATCH DOES NOT APPLY"; exit 2; }
 if [ "${SEED_VERIFY:-1}" = 1 ]; then
   (cd $wt && go build ./... && go test -vet=off -count=1 ./... 2>&1 | grep -v "^ok\|no test files" | head -20; echo "suite-exit=${PIPESTATUS[0]}")
@@ -18,5 +21,5 @@ if [ "${SEED_VERIFY:-1}" = 1 ]; then
 fi
 for p in "$@"; do
   echo "== check $p on seeded tree"
-  (cd /verif && VERIF_REPO=$wt ./check $p ${SEED_TIER:+--tier $SEED_TIER} 2>&1 | tail -${SEED_TAIL:-6}; echo "check-exit=${PIPESTATUS[0]}")
+  (cd $root && VERIF_REPO=$wt ./check $p ${SEED_TIER:+--tier $SEED_TIER} 2>&1 | tail -${SEED_TAIL:-6}; echo "check-exit=${PIPESTATUS[0]}")
 done
